@@ -10,8 +10,9 @@ every store reachable by ingestion in C01.
   C17_roundtrip …            importing the export of a store gives its sorted longest chain, row for row
   C17_refuses_…              malformed row / count / heights / newest checkpoint ⇒ start-up fails
   C17_never_overwrites       a table that already has rows is left alone
-  C17_no_leftover            FALSE on the unchanged code (see the comment at C17_no_leftover_partial):
-                             _partial, _counterexample, _with_cleanup (the statement under the suggested patch)
+  C17_no_leftover            after a refused import the table is empty and a later start refuses again — full strength
+                             since /repo commit "fix: a refused import leaves no headers behind" (the defect was found
+                             by this check: C17_leftover_before_fix keeps the witness on the pre-fix behaviour)
 -/
 import BHS.Model.ImpExp
 import BHS.Proofs.ImpExpChain
@@ -357,43 +358,17 @@ example : exStore ≠ [] := by decide
 
 /-! ### nothing left behind by a refused import -/
 
-/-- the regenerated table of write statements has no statement that removes rows of `headers`: nothing the code can
-    run undoes a committed batch (this is why `cleanupOnRefusal` is false); the insert never replaces a row -/
-theorem C17_no_cleanup_statement :
-    (∀ w ∈ Gen.sqlWrites, w.verb = "delete" → w.table ≠ "headers") ∧
+/-- pinned to the regenerated table of write statements: exactly one statement under /repo/database deletes from
+    `headers`, and it is the one in database/import.go — the import's own cleanup (`removeImportedHeaders`; this is why
+    `cleanupOnRefusal` is true). Nothing else can remove a stored header; the insert never replaces a row. -/
+theorem C17_cleanup_statement :
+    (Gen.sqlWrites.filter (fun w => w.verb = "delete" ∧ w.table = "headers")).map (·.origin) = ["database/import.go"] ∧
     (∀ w ∈ Gen.sqlWrites, w.verb = "insert" → w.table = "headers" → w.conflict = "do-nothing") := by decide
 
-/- FULL STATEMENT (false on the unchanged code, see C17_no_leftover_counterexample):
-
-     theorem C17_no_leftover (cfg cd bs cps file e) (h : (start cfg cd bs cps [] file).2 = .refused e) :
-         (start cfg cd bs cps [] file).1 = [] ∧
-         start cfg cd bs cps (start cfg cd bs cps [] file).1 file = start cfg cd bs cps [] file
-
-   "after a refused import the table is empty, so a later start on the same database imports again and refuses again".
-   The unchanged code commits every batch of 500 records in its own transaction and removes nothing when a later
-   record or the validation fails; the next start finds `count > 0` and skips import AND validation.
-   Proved instead:
-     C17_no_leftover_partial         the refusal happens before anything is committed: file unreadable / empty, or
-                                     the first bad record lies inside the first batch
-     C17_no_leftover_counterexample  checkpoint mismatch / bad record in a later batch: rows stay, second start `skipped`
-     C17_no_leftover_with_cleanup    the full statement for `startWith true` (the suggested patch) -/
-
-/- WHEN /repo IS FIXED (the patch of docs/findings/C17.md, or any change that empties `headers` when the import or its
-   validation fails) — checked in a private copy of this project against a harness built with the patched import.go
-   (0 disagreements, 0 oracle failures):
-     1. BHS/Model/ImpExp.lean:  def cleanupOnRefusal : Bool := true
-     2. delete `C17_no_leftover_counterexample` below (the only declaration that stops holding) and add
-
-          theorem C17_no_leftover (cfg : Cfg H) (cd : Codec H) (bs : Nat) (cps : List (Nat × H))
-              (file : Option (List Record)) (e : Refusal) (h : (start cfg cd bs cps [] file).2 = .refused e) :
-              (start cfg cd bs cps [] file).1 = [] ∧
-              start cfg cd bs cps (start cfg cd bs cps [] file).1 file = start cfg cd bs cps [] file :=
-            C17_no_leftover_with_cleanup cfg cd bs cps file e h
-
-     3. `C17_no_cleanup_statement`: its first clause fails once the regenerated table lists `delete headers`; state
-        instead that such a statement exists with origin database/import.go
-     4. BHS/Audit/C17.lean: replace the counterexample's line by `#print axioms C17_no_leftover`;
-        KNOWN_FINDINGS.json: move K-C17-leftover to `fixed`; bin/meta/C17.json: drop the first `partial` entry. -/
+/-! `C17_no_leftover` (the full statement) is at the end of this section; it was FALSE before /repo commit
+   "fix: a refused import leaves no headers behind" (every batch of 500 records is committed in its own transaction and
+   nothing was removed when a later record or the validation failed; the next start found `count > 0` and skipped import
+   AND validation). The lemmas `C17_no_leftover_partial` / `_unreadable` hold for either value of the switch. -/
 
 /-- the refusal leaves nothing behind — and the next start refuses again — when it happens before the first commit:
     the first bad record is inside the first batch (`i < bs`) -/
@@ -429,24 +404,27 @@ theorem C17_no_leftover_unreadable (cleanup : Bool) (cfg : Cfg H) (cd : Codec H)
   rw [h.1, h.2]
   exact ⟨by rw [h.1], by rw [h.2]⟩
 
-/-- THE DEFECT, on the model of the unchanged code (`start` = `startWith cleanupOnRefusal`), two concrete witnesses.
+/-- THE DEFECT THIS CHECK FOUND, kept on the model of the code BEFORE the fix (`startWith false`), two witnesses.
     (1) A one-row file whose block at the newest checkpoint height (0) has hash 11 while the checkpoint says 999:
         the first start is refused with "newest checkpoint block has different hash" but the row stays, and the second
         start on that table is `skipped` — it comes up serving the refused row.
     (2) Batch size 1, a good record followed by a malformed one: the first start is refused naming row 1, the first
-        batch stays, the second start is `skipped`. -/
-theorem C17_no_leftover_counterexample :
-    ((start exCfg natCodec 500 [(0, 999)] [] (some [headerLine, exGood])).2 = .refused .checkpointMismatch ∧
-     (start exCfg natCodec 500 [(0, 999)] [] (some [headerLine, exGood])).1.length = 1 ∧
-     (start exCfg natCodec 500 [(0, 999)] (start exCfg natCodec 500 [(0, 999)] [] (some [headerLine, exGood])).1
+        batch stays, the second start is `skipped`.
+    (The same two inputs on the current code: see the examples after `C17_no_leftover`.) -/
+theorem C17_leftover_before_fix :
+    ((startWith false exCfg natCodec 500 [(0, 999)] [] (some [headerLine, exGood])).2 = .refused .checkpointMismatch ∧
+     (startWith false exCfg natCodec 500 [(0, 999)] [] (some [headerLine, exGood])).1.length = 1 ∧
+     (startWith false exCfg natCodec 500 [(0, 999)]
+        (startWith false exCfg natCodec 500 [(0, 999)] [] (some [headerLine, exGood])).1
         (some [headerLine, exGood])).2 = .skipped) ∧
-    ((start exCfg natCodec 1 [(0, 11)] [] (some [headerLine, exGood, exBadVersion])).2 = .refused (.row 1 .version) ∧
-     (start exCfg natCodec 1 [(0, 11)] [] (some [headerLine, exGood, exBadVersion])).1.length = 1 ∧
-     (start exCfg natCodec 1 [(0, 11)] (start exCfg natCodec 1 [(0, 11)] [] (some [headerLine, exGood, exBadVersion])).1
+    ((startWith false exCfg natCodec 1 [(0, 11)] [] (some [headerLine, exGood, exBadVersion])).2 = .refused (.row 1 .version) ∧
+     (startWith false exCfg natCodec 1 [(0, 11)] [] (some [headerLine, exGood, exBadVersion])).1.length = 1 ∧
+     (startWith false exCfg natCodec 1 [(0, 11)]
+        (startWith false exCfg natCodec 1 [(0, 11)] [] (some [headerLine, exGood, exBadVersion])).1
         (some [headerLine, exGood, exBadVersion])).2 = .skipped) := by decide
 
-/-- the full statement holds for the patched behaviour (`cleanup = true`: empty the table before returning the error):
-    a refused start leaves an empty table, so the next start on that database does what the first did -/
+/-- with the cleanup (`cleanup = true`: empty the table before returning the error) a refused start leaves an empty
+    table, so the next start on that database does what the first did -/
 theorem C17_no_leftover_with_cleanup (cfg : Cfg H) (cd : Codec H) (bs : Nat) (cps : List (Nat × H))
     (file : Option (List Record)) (e : Refusal) (h : (startWith true cfg cd bs cps [] file).2 = .refused e) :
     (startWith true cfg cd bs cps [] file).1 = [] ∧
@@ -475,5 +453,23 @@ theorem C17_no_leftover_with_cleanup (cfg : Cfg H) (cd : Codec H) (bs : Nat) (cp
 
 example : (startWith true exCfg natCodec 500 [(0, 999)] [] (some [headerLine, exGood])) = ([], .refused .checkpointMismatch) := by
   decide
+
+/-- NOTHING LEFT BEHIND (full strength, about `start` = the current code): whatever the file, the checkpoints and the
+    batch size, a start on an empty database that refuses the prepared file leaves the table empty, and a later start
+    on the same database with the same file does exactly what the first did — it imports again and refuses again; it
+    never comes up with what the refused import wrote. -/
+theorem C17_no_leftover (cfg : Cfg H) (cd : Codec H) (bs : Nat) (cps : List (Nat × H)) (file : Option (List Record))
+    (e : Refusal) (h : (start cfg cd bs cps [] file).2 = .refused e) :
+    (start cfg cd bs cps [] file).1 = [] ∧
+    start cfg cd bs cps (start cfg cd bs cps [] file).1 file = start cfg cd bs cps [] file :=
+  C17_no_leftover_with_cleanup cfg cd bs cps file e h
+
+/-- the two inputs of `C17_leftover_before_fix` on the current code: refused, nothing stays, refused again -/
+example : start exCfg natCodec 500 [(0, 999)] [] (some [headerLine, exGood]) = ([], .refused .checkpointMismatch) ∧
+    start exCfg natCodec 500 [(0, 999)] (start exCfg natCodec 500 [(0, 999)] [] (some [headerLine, exGood])).1
+      (some [headerLine, exGood]) = ([], .refused .checkpointMismatch) ∧
+    start exCfg natCodec 1 [(0, 11)] [] (some [headerLine, exGood, exBadVersion]) = ([], .refused (.row 1 .version)) ∧
+    start exCfg natCodec 1 [(0, 11)] (start exCfg natCodec 1 [(0, 11)] [] (some [headerLine, exGood, exBadVersion])).1
+      (some [headerLine, exGood, exBadVersion]) = ([], .refused (.row 1 .version)) := by decide
 
 end BHS.Props.C17
